@@ -108,6 +108,7 @@ pub struct PeerStats {
     pub wrap: bool,
     pub blind_rsts: u64,
     pub state_checks: u64,
+    pub syns_with_data: u64,
 }
 
 pub struct PeerSim {
@@ -171,7 +172,8 @@ fn add_range(v: &mut Vec<(u64, u64)>, a: u64, b: u64) {
 #[derive(Clone, Debug)]
 enum SegEvent {
     /// peer SYN (maybe with ACK)
-    Syn { ack: Option<u32> },
+    /// `data`: octets of the peer's stream (from offset 0) carried on the SYN itself
+    Syn { ack: Option<u32>, data: usize },
     Data { seq: u32, len: usize, fin: bool, ack: Option<u32>, wnd: u16, rst: bool, place: &'static str, ackc: &'static str },
 }
 
@@ -498,8 +500,19 @@ impl PeerSim {
             _ => None,
         };
         match ev {
-            SegEvent::Syn { ack } => {
+            SegEvent::Syn { ack, data } => {
                 seg.seq = self.cfg.irs;
+                seg.payload = (0..data as u64).map(|k| stream_byte(self.tag_peer, k)).collect();
+                if data > 0 {
+                    self.stats.syns_with_data += 1;
+                    // Data on a SYN: a socket that already advertised a window in its own SYN (active
+                    // open) is entitled to keep what fits that window; a listener has advertised
+                    // nothing yet and is not entitled to acknowledge any of it.
+                    if before == State::SynSent && ack.is_some() && ack == iss1 {
+                        let lim = self.cfg.rx_buf.min(65535) as u64;
+                        add_range(&mut self.ranges, 0, (data as u64).min(lim));
+                    }
+                }
                 seg.flags = itcp::SYN | if ack.is_some() { itcp::ACK } else { 0 };
                 seg.ack = ack.unwrap_or(0);
                 seg.wnd = 65535;
@@ -509,7 +522,7 @@ impl PeerSim {
                 if self.cfg.peer_ts {
                     seg.ts = Some(((self.now / 1000) as u32, 0));
                 }
-                evname = format!("SYN{}", if ack.is_some() { "|ACK" } else { "" });
+                evname = format!("SYN{}{}", if ack.is_some() { "|ACK" } else { "" }, if data > 0 { "+data" } else { "" });
                 match before {
                     State::Listen if ack.is_none() => allowed.push(State::SynReceived),
                     State::SynSent => {
@@ -878,18 +891,20 @@ impl PeerSim {
         // ---- handshake prefix (sometimes left incomplete so that handshake states are attacked too)
         self.time_and_egress(0);
         let hs = rng.below(10);
+        // one SYN in five carries the first octets of the peer's stream
+        let syn_data = if rng.chance(1, 5) { rng.urange(1, 24) } else { 0 };
         if self.cfg.active {
             if hs < 8 {
                 let a = self.iss.map(|i| i.wrapping_add(1));
                 if hs == 7 {
                     // simultaneous open: SYN without ACK, then the final ACK comes as a normal segment
-                    self.inject(SegEvent::Syn { ack: None });
+                    self.inject(SegEvent::Syn { ack: None, data: syn_data });
                 } else {
-                    self.inject(SegEvent::Syn { ack: a });
+                    self.inject(SegEvent::Syn { ack: a, data: syn_data });
                 }
             }
         } else if hs < 9 {
-            self.inject(SegEvent::Syn { ack: None });
+            self.inject(SegEvent::Syn { ack: None, data: syn_data });
             if hs < 8 {
                 if let Some(iss) = self.iss {
                     let rn = self.cfg.irs.wrapping_add(1);
@@ -913,7 +928,7 @@ impl PeerSim {
                 }
                 if !self.peer_syn_sent && rng.chance(1, 2) {
                     let a = if self.cfg.active { self.iss.map(|i| i.wrapping_add(1)) } else { None };
-                    self.inject(SegEvent::Syn { ack: a });
+                    self.inject(SegEvent::Syn { ack: a, data: syn_data });
                 } else {
                     let ev = self.gen_segment(rng);
                     self.inject(ev);
